@@ -465,8 +465,29 @@ def run(repo, chk):
         lits = guard_literals(g.node_ast(n), wloop)
         chk.expect(("first_step", False) in lits and not any(t == "first_step" and v for t, v in lits), "R-C06-2", "tank heads are projected before the controls are checked, except on a first step", loc(rs, g.node_ast(n)), found=sorted(lits))
     shn = repo.func("wntr/sim/models/param.py", "source_head_param")
-    s_ = unparse(shn)
-    chk.expect("m.source_head[node_name].value = node.head" in s_ and "wn.tanks()" in s_, "R-C06-2", "source_head_param copies every tank's head into the model", loc(shn))
+    # decided on the store events of the symbolic paths (not on the text): on the refresh path, inside a loop over wn.tanks() binding (key, tank), the model
+    # parameter under that key receives that tank's head
+    from ..symx import SymExec as _SX
+    ok_copy = False
+    for hv in (True, False):
+        exs = _SX(test_hook=lambda txt, node, st, hv=hv: (hv if txt.startswith("hasattr(") else None))
+        for o in exs.run(shn):
+            for e in o.events:
+                if e[0] != "store" or not e[4]:
+                    continue
+                val = exs.text(e[2])
+                m_ = re.match(r"^m\.source_head\[(\w+)\]\.value$", e[1])
+                if not m_:
+                    continue
+                key = m_.group(1)
+                # the loops this store is nested in: (target text, iterable text) recorded with the loop events of the path
+                for le in o.events:
+                    if le[0] == "loop" and "tanks()" in le[2]:
+                        names = [x.strip() for x in le[1].strip("()").split(",")]
+                        if len(names) == 2 and names[0] == key and val == names[1] + ".head":
+                            ok_copy = True
+    chk.expect(ok_copy, "R-C06-2", "source_head_param copies every tank's head into the model", loc(shn),
+               "on the refresh path the parameter m.source_head[<tank name>] must receive <tank>.head for every tank of wn.tanks(): the integrated level reaches the solver only through it")
     chk.floor("R-C06-2", 8)
 
     # ---------------------------------------------------------------- R-C06-3 limit controls
@@ -841,6 +862,11 @@ def run(repo, chk):
                expected="extrapolation (or a refusal) outside the curve", found="%d plain np.interp call(s)" % len(interp_calls))
 
 WITNESSES = [
+    dict(name="tank-source-head-refreshed-from-the-elevation", file="wntr/sim/models/param.py", old="            m.source_head[node_name].value = node.head\n", new="            m.source_head[node_name].value = node.elevation\n", rule="R-C06-2"),
+    dict(name="tank-source-head-through-a-generator-helper-preserving", file="wntr/sim/models/param.py",
+         old="        for node_name, node in wn.tanks():\n            m.source_head[node_name].value = node.head\n",
+         new="        for tank_name, head in _tank_heads(wn):\n            m.source_head[tank_name].value = head\n",
+         also=[("def expected_demand_param(m, wn):\n", "def _tank_heads(wn):\n    for name, tank in wn.tanks():\n        yield name, tank.head\n\n\ndef expected_demand_param(m, wn):\n")], silent=True),
     dict(name="elevation-setter-leaves-head", file=ELEM, old="        self._head = self._elevation + self._init_level  # like the init_level setter: the tank starts at init_level\n", new="", rule="R-C06-1b"),
     dict(name="elevation-setter-stores-elevation-only", file=ELEM, old="        self._head = self._elevation + self._init_level  # like the init_level setter: the tank starts at init_level\n", new="        self._head = self._elevation\n", rule="R-C06-1b"),
     dict(name="quiet-elevation-setter-uses-value-and-property", file=ELEM, silent=True, old="        self._head = self._elevation + self._init_level  # like the init_level setter: the tank starts at init_level\n", new="        self._head = self.init_level + value\n"),
